@@ -203,6 +203,33 @@ _verdict(max(diffs) > 1e-12, max_difference=max(diffs))
 '''
 
 
+def _replay_workers():
+    """Compiled build: Earth-Moon L1 centre-manifold map, every worker count 1..16 (and two seed counts): same point set as 1 worker."""
+    return '''
+# NUMBA_NUM_THREADS=4
+from hiten.algorithms.poincare.centermanifold.options import CenterManifoldMapOptions
+from hiten.algorithms.poincare.core.options import IterationOptions, SeedingOptions
+from hiten.algorithms.types.options import IntegrationOptions, WorkerOptions
+from hiten.system.base import System
+from hiten.system.center import CenterManifold
+cm = CenterManifold(System.from_bodies("earth", "moon").get_libration_point(1), 4)
+pmap = cm.poincare_map(0.5)
+def run(nw, ns):
+    o = CenterManifoldMapOptions(integration=IntegrationOptions(dt=1e-2, order=4, c_omega_heuristic=20.0, max_steps=4000), iteration=IterationOptions(n_iter=2),
+                                 seeding=SeedingOptions(n_seeds=ns), workers=WorkerOptions(n_workers=nw))
+    st = np.asarray(pmap.compute(section_coord="q3", options=o).states, dtype=float)
+    return st[np.lexsort(st.T[::-1])] if st.size else st
+bad = {}
+for ns in (20, 7):
+    ref = run(1, ns)
+    for nw in range(2, 17):
+        got = run(nw, ns)
+        if got.shape != ref.shape or not np.allclose(got, ref, rtol=0, atol=1e-9):
+            bad["seeds_%d_workers_%d" % (ns, nw)] = "%d points instead of %d" % (got.shape[0], ref.shape[0])
+_verdict(bool(bad), **bad)
+'''
+
+
 def engine_workers(chk):
     """(4) for every number of workers <= 3 and every completion order the returned multiset of rows equals the one-worker run."""
     import hiten.algorithms.poincare.centermanifold.engine as eng
@@ -302,7 +329,7 @@ def engine_workers(chk):
             for row in r[2]:
                 zero_ok = zero_ok and not Sym.lift(row[2]).t       # q3 is column 2 of (q2, p2, q3, p3)
     chk.absorb(ex)
-    (chk.ok if ok else (lambda o, d: chk.fail(o, d, None)))('C14/(4)engine/workers-and-completion-order', '%d success patterns of the per-seed map over 2 iterations: the multiset of returned rows and times is the same for 1, 2, 3 workers and every completion order (%d rows in the reference runs)' % (len(paths), nrows))
+    (chk.ok if ok else (lambda o, d: chk.fail(o, d, _replay_workers(), replay_timeout=1500)))('C14/(4)engine/workers-and-completion-order', '%d success patterns of the per-seed map over 2 iterations: the multiset of returned rows and times is the same for 1, 2, 3 workers and every completion order (%d rows in the reference runs)' % (len(paths), nrows))
     (chk.ok if zero_ok else (lambda o, d: chk.fail(o, d, None)))('C14/(2)section-coordinate-zero', 'every returned row has its section coordinate exactly 0 (enforce_section_coordinate on each iterate and on the merged result)')
     # index table: rows are (q2, p2, q3, p3)
     from hiten.algorithms.poincare.centermanifold.interfaces import _STATE_INDEX
